@@ -774,6 +774,6 @@ def run_config(cfg):
                                  cluster=[nd.cluster_label for nd in g.nodes], order=list(g.idx_nodes))
         return p
     return common.explore(cfg, harness, twin=tw, on_leaf=on_leaf, witness_fn=witness,
-                          witness_stride=cfg.get("wstride", 0), deadline_s=cfg.get("deadline_s", 1800),
+                          witness_stride=cfg.get("wstride", 0), deadline_s=cfg.get("deadline_s", 1200),
                           seed=cfg.get("seed", 0), solver_timeout_ms=cfg.get("timeout_ms", 60000),
                           logic=cfg.get("logic"))
